@@ -132,6 +132,10 @@ class C16(Prop):
             out.append(case('h = {"%s": 1}; return [h["%s"], "%s" in keys(h), h["%s"]];' % (a, b, b, a), enc_value([None, False, 1]), "hash-collision"))
             out.append(case('n = 0; foreach k, v in {"%s": 1, "%s": 2} { n = n + v; } return n;' % (a, b), "i3", "hash-collision"))
             out.append(case('return M["%s"] + M["%s"];' % (a, b), "i3", "hash-collision", objs=enc_struct([("M", {a: 1, b: 2})])))
+        # a..b spanning (nearly) all the integers is not the empty range (D48 repaired): it cannot be built, and says so
+        for src in ["a = 0 - 4611686018427387904; a = a - 4611686018427387904; r = a..9223372036854775807; return len(r);",
+                    "a = 0 - 9223372036854775807; r = a..9223372036854775807; return len(r);", "a = 0 - 9223372036854775807; foreach x in (a - 1)..9223372036854775807 { return x; } return 0;"]:
+            out.append(case(src, None, "range-overflow", klass="script-error"))
         # random container programs judged against the model
         import gen
         for _ in range(30000 if tier == "thorough" else 300):
